@@ -86,9 +86,9 @@ pub fn start_states(version: u16, names: &[&str]) -> Vec<StartState> {
 
 fn fill_size(path: &str) -> usize {
     match path {
-        "/a" => 30,
+        "/a" => 300,
         "/b" => 5000,
-        "/c" => 64,
+        "/c" => 200,
         "/d" => 0,
         _ => 100,
     }
@@ -248,6 +248,7 @@ pub fn alphabet(held: &[String], streams: &[String], rich: bool) -> Vec<HAct> {
         v.push(HAct::Append(h, 4100));
         v.push(HAct::Flush(h));
         v.push(HAct::SetLen(h, 100));
+        v.push(HAct::SetLen(h, 10));
         v.push(HAct::ReadAll(h));
         if rich {
             v.push(HAct::WriteAt0(h, 5000));
